@@ -250,7 +250,7 @@ func (s *Server) Run(addr string, opt ...Option) error {
 				// handling a single conn causes a panic
 				defer func() {
 					if r := recover(); r != nil {
-						s.logger.Error("Caught panic while serving request", "op", op, "conn", localConnID, "conn/req", fmt.Sprintf("%+v: %+v", c, r))
+						s.logger.Error("Caught panic while serving request", "op", op, "conn", localConnID, "conn/req", fmt.Sprintf("%s: %+v", c.RemoteAddr(), r))
 					}
 				}()
 			}
